@@ -17,13 +17,16 @@ Theorems (over Model/ListOffsets.lean and Model/Seek.lean):
                           model and meets the reference; the returned value is the new connection offset
   seek_no_change_on_error a failed Seek leaves the connection offset unchanged
   offset_roundtrip        Conn.Offset reports a position that Seek maps back to the same connection offset
+  merge_statements_shape  the decisions / field updates of listoffsets Merge (regenerated, canonicalised) are the model's
   mapping_sources         regenerated field-copy tables of the mapping functions agree with the models' sources
   mapping_exact_*         the field mappings as theorems over Model/Mappings.lean and Model/ListOffsets.lean:
     mapping_exact_offsetFetch_all  nil/empty user map → NULL on the wire → every committed partition (an empty array would give none)
     mapping_exact_offsetFetch      coordinator state → OffsetFetch answer → user response = the state, per requested partition
     mapping_exact_offsetCommit_request / _response   every user commit reaches the wire unchanged; per-partition errors come back
-    mapping_exact_consumerOffsets  partition → committed offset of the coordinator
-    mapping_exact_metadata         leader / replicas / ISR of every partition resolve to the listed brokers; order and fields kept
+    mapping_exact_consumerOffsets / consumerOffsets_group_error   partition → committed offset; a failed partition is left out and its
+                                   error returned, a group-level error fails the call (C19-D31 fixed)
+    mapping_exact_metadata         every leader / replica / ISR id of the answer is reported as that id (listed or not: C19-D30 fixed);
+                                   listed ids resolve to exactly that broker; order and fields kept
     mapping_exact_readPartitions   same for Conn.ReadPartitions (placeholder brokers for unlisted ids)
     readPartitions_error_scope / readPartitionsTopics_spec   ReadPartitions: which topics are asked for; a topic error ends the call only when it
                           concerns the connection, otherwise every partition of every answered topic is reported
@@ -376,6 +379,20 @@ theorem listOffsets_switch_shape :
        "FirstOffset|_.FirstOffset|_.Offset", "LastOffset|_.LastOffset|_.Offset",
        "default|_.Offsets[_.Offset]|makeTime(_.Timestamp)"].contains row) = true := by decide
 
+
+/-- protocol/listoffsets Merge: every decision and field update visible in the source is one the model's `merge`
+makes — the requested timestamps are indexed by (topic, partition), a failed part is counted and gets placeholders
+under its topic, the throttle is raised to a larger part value, an answered entry gets the indexed timestamp when the
+index has its key, the call fails only when all (and at least one) parts failed, partitions are compared by number
+first (tolerant: fewer visible statements never alarm, a different one does) -/
+theorem merge_statements_shape :
+    (KV.Gen.Mappings.listOffsetsMergeStatements.all fun st =>
+      ["set _[topicPartition{…}] = _.Timestamp", "set _[_] = _", "if _!=nil", "set _[_.Topic] = _", "++",
+       "if _.ThrottleTimeMs<_.ThrottleTimeMs", "set _.ThrottleTimeMs = _.ThrottleTimeMs", "if _",
+       "set _.Timestamp = _", "set _[_.Topic] = append(_[_.Topic],_)", "if _>0&&_==len(_)",
+       "set _.Topics = make(…)", "set _.Topics = append(_.Topics,ResponseTopic{…})",
+       "if _.Partition!=_.Partition"].contains st) = true := by decide
+
 end fieldmaps
 
 /-! ## field mappings (`mapping_exact`) -/
@@ -484,18 +501,70 @@ theorem mapping_exact_offsetCommit_response (res : List (String × List (Int × 
     simp
   · simp only [List.map_map]; exact hnd
 
-/-- **ConsumerOffsets**: partition → the coordinator's committed offset, for distinct partition ids -/
-theorem mapping_exact_consumerOffsets (c : Coord) (t : String) (ps : List Int) (hnd : ps.Nodup) (p : Int) (hp : p ∈ ps) :
-    (consumerOffsets ((ps.map (c.part t)).map convOF)).lookup p = some (c.value t p).1 := by
-  simp only [consumerOffsets, goMap]
-  apply lookup_foldl_ainsert
-  · simp only [List.map_map, List.mem_map]
-    exact ⟨p, hp, rfl⟩
-  · simp only [List.map_map]
-    have : ps.map ((fun x : Int × Int => x.1) ∘ (fun q : UOFPart => (q.partition, q.committed)) ∘ convOF ∘ c.part t) = ps := by
-      conv => rhs; rw [← List.map_id ps]
-      exact List.map_congr_left (fun _ _ => rfl)
-    rw [this]; exact hnd
+/-- **ConsumerOffsets** (after fix C19-D31), for distinct partition ids: a partition the coordinator answers without
+error is reported with exactly its committed offset; a partition it answers with an error is **not** in the map, and
+then an error naming a failed partition and its code is returned; a group-level error fails the whole call. -/
+theorem mapping_exact_consumerOffsets (c : Coord) (t : String) (ps : List Int) (hnd : ps.Nodup) :
+    ∃ m e, consumerOffsets 0 ((ps.map (c.part t)).map convOF) = .ok (m, e) ∧
+      (∀ p ∈ ps, (c.value t p).2.2 = 0 → m.lookup p = some (c.value t p).1) ∧
+      (∀ p ∈ ps, (c.value t p).2.2 ≠ 0 → m.lookup p = none) ∧
+      ((∃ p ∈ ps, (c.value t p).2.2 ≠ 0) → ∃ p code, e = some (p, code) ∧ p ∈ ps ∧ code = (c.value t p).2.2 ∧ code ≠ 0) ∧
+      ((∀ p ∈ ps, (c.value t p).2.2 = 0) → e = none) := by
+  refine ⟨_, _, rfl, ?_, ?_, ?_, ?_⟩
+  · intro p hp h0
+    simp only [goMap]
+    apply lookup_foldl_ainsert
+    · simp only [List.mem_map, List.mem_filter]
+      refine ⟨convOF (c.part t p), ⟨?_, ?_⟩, rfl⟩
+      · exact ⟨c.part t p, ⟨p, hp, rfl⟩, rfl⟩
+      · simp [convOF, Coord.part, h0]
+    · have hsub : ((((ps.map (c.part t)).map convOF).filter (·.error == 0)).map fun q => (q.partition, q.committed)).map (·.1)
+          = (ps.filter fun q => (c.value t q).2.2 == 0) := by
+        simp only [List.map_map, List.filter_map, Function.comp]
+        conv => rhs; rw [← List.map_id (ps.filter _)]
+        apply List.map_congr_left
+        intro q _; rfl
+      rw [hsub]
+      exact hnd.sublist List.filter_sublist
+  · intro p _ hne
+    simp only [goMap]
+    apply lookup_foldl_ainsert_none
+    intro e he
+    simp only [List.mem_map, List.mem_filter] at he
+    obtain ⟨q, ⟨⟨r, ⟨x, _, rfl⟩, rfl⟩, hq⟩, rfl⟩ := he
+    intro heq
+    have hx : x = p := heq
+    subst hx
+    simp [convOF, Coord.part] at hq
+    exact hne hq
+  · rintro ⟨p, hp, hne⟩
+    have hex : ∃ q ∈ (ps.map (c.part t)).map convOF, (q.error != 0) = true :=
+      ⟨convOF (c.part t p), List.mem_map.mpr ⟨c.part t p, List.mem_map.mpr ⟨p, hp, rfl⟩, rfl⟩, by simp [convOF, Coord.part, hne]⟩
+    cases hf : ((ps.map (c.part t)).map convOF).find? (fun q => q.error != 0) with
+    | none =>
+      obtain ⟨q, hq, hq2⟩ := hex
+      have := List.find?_eq_none.mp hf q hq
+      simp [hq2] at this
+    | some q =>
+      have hmem := List.mem_of_find?_eq_some hf
+      have hpred := List.find?_some hf
+      simp only [List.mem_map] at hmem
+      obtain ⟨r, ⟨x, hx, rfl⟩, rfl⟩ := hmem
+      refine ⟨x, (c.value t x).2.2, ?_, hx, rfl, ?_⟩
+      · simp [convOF, Coord.part]
+      · simpa [convOF, Coord.part] using hpred
+  · intro hall
+    have : ((ps.map (c.part t)).map convOF).find? (fun q => q.error != 0) = none := by
+      apply List.find?_eq_none.mpr
+      intro q hq
+      simp only [List.mem_map] at hq
+      obtain ⟨r, ⟨x, hx, rfl⟩, rfl⟩ := hq
+      simp [convOF, Coord.part, hall x hx]
+    simp only [this, Option.map_none]
+
+theorem consumerOffsets_group_error (g : Int) (hg : g ≠ 0) (fetched : List UOFPart) :
+    consumerOffsets g fetched = .error g := by
+  simp [consumerOffsets, hg]
 
 /-- the broker map built from a listing with distinct node ids resolves every listed id to its entry -/
 theorem brokerMap_lookup (bs : List MBroker) (hnd : (bs.map (·.nodeID)).Nodup) (b : MBroker) (hb : b ∈ bs) :
@@ -528,19 +597,45 @@ theorem brokerMap_id (bs : List MBroker) (id : Int) (b : UBroker) (h : (brokerMa
   obtain ⟨x, _, rfl⟩ := List.mem_map.mp he
   rfl
 
+theorem brokerOrPlaceholder_id (bs : List MBroker) (id : Int) : (brokerOrPlaceholder (brokerMap bs) id).id = id := by
+  simp only [brokerOrPlaceholder]
+  cases h : (brokerMap bs).lookup id with
+  | none => rfl
+  | some b => exact brokerMap_id bs id b h
+
+theorem makeBrokers_ids (bs : List MBroker) (ids : List Int) : (makeBrokers (brokerMap bs) ids).map (·.id) = ids := by
+  simp only [makeBrokers, List.map_map]
+  conv => rhs; rw [← List.map_id ids]
+  apply List.map_congr_left
+  intro k _
+  simp only [Function.comp, id]
+  cases h : (brokerMap bs).lookup k with
+  | none => rfl
+  | some b => exact brokerMap_id bs k b h
+
 /-- **Metadata**: brokers, topics and partitions are reported in the answer's order with their name, internal
-flag, error code and partition id unchanged, and the leader of every partition whose leader id is listed is
-reported as exactly that broker (id, host, port, rack). -/
-theorem mapping_exact_metadata (res : MResponse) (hnd : (res.brokers.map (·.nodeID)).Nodup) :
+flag, error code and partition id unchanged; **every leader, replica and ISR id of the answer is reported as that
+id** — whether or not the id is in the answer's broker list (replicas on offline brokers, no leader: after fix
+C19-D30) — and an id that is listed is reported as exactly that broker (id, host, port, rack). -/
+theorem mapping_exact_metadata (res : MResponse) :
     (clientMetadata res).brokers = res.brokers.map convBroker ∧
-    (clientMetadata res).topics.map (fun t => (t.name, t.internal, t.error, t.partitions.map fun p => (p.id, p.error)))
-      = res.topics.map (fun t => (t.name, t.internal, t.error, t.partitions.map fun p => (p.index, p.error))) ∧
-    (∀ t ∈ res.topics, ∀ p ∈ t.partitions, ∀ b ∈ res.brokers, b.nodeID = p.leader →
-      lookupD (brokerMap res.brokers) p.leader UBroker.zero = convBroker b) := by
+    (clientMetadata res).topics.map (fun t => (t.name, t.internal, t.error, t.partitions.map fun p =>
+        (p.id, p.error, p.leader.id, p.replicas.map (·.id), p.isr.map (·.id))))
+      = res.topics.map (fun t => (t.name, t.internal, t.error, t.partitions.map fun p =>
+        (p.index, p.error, p.leader, p.replicas, p.isr))) ∧
+    ((res.brokers.map (·.nodeID)).Nodup → ∀ t ∈ res.topics, ∀ p ∈ t.partitions, ∀ b ∈ res.brokers, b.nodeID = p.leader →
+      brokerOrPlaceholder (brokerMap res.brokers) p.leader = convBroker b) := by
   refine ⟨rfl, ?_, ?_⟩
-  · simp [clientMetadata, List.map_map, Function.comp]
-  · intro t _ p _ b hb hid
-    simp [lookupD, ← hid, brokerMap_lookup res.brokers hnd b hb]
+  · simp only [clientMetadata, List.map_map]
+    apply List.map_congr_left
+    intro t _
+    simp only [Function.comp, List.map_map]
+    congr 3
+    apply List.map_congr_left
+    intro p _
+    simp [Function.comp, brokerOrPlaceholder_id, makeBrokers_ids]
+  · intro hnd t _ p _ b hb hid
+    simp [brokerOrPlaceholder, ← hid, brokerMap_lookup res.brokers hnd b hb]
 
 /-- **ReadPartitions** resolves replicas / ISR through the same map; an id without a listed broker is reported as
 a placeholder carrying that id (never as another broker) -/
@@ -666,8 +761,8 @@ theorem readPartitions_fold_ok (bm : List (Int × UBroker)) (connTopic : String)
     ∃ ps, ts.foldlM (fun acc t =>
         if concerns connTopic t then Except.error t.error
         else Except.ok (acc ++ t.partitions.map (convPartition bm t))) acc = .ok ps ∧
-      ps.map (fun p => (p.topic, p.id)) = acc.map (fun p => (p.topic, p.id)) ++
-        ts.flatMap (fun t => t.partitions.map fun p => (t.name, p.index)) := by
+      ps.map (fun p => (p.topic, p.id, p.error)) = acc.map (fun p => (p.topic, p.id, p.error)) ++
+        ts.flatMap (fun t => t.partitions.map fun p => (t.name, p.index, p.error)) := by
   induction ts generalizing acc with
   | nil => exact ⟨acc, rfl, by simp⟩
   | cons t ts ih =>
@@ -693,12 +788,13 @@ theorem readPartitions_fold_err (bm : List (Int × UBroker)) (connTopic : String
     exact ih _ hpre.2
 
 /-- **ReadPartitions, error scope**: when no answered topic carries an error that concerns the connection, every
-partition of every answered topic is reported, in order (errors of other topics hide nothing); otherwise the first
+partition of every answered topic is reported, in order, with the error code the broker gave for it (after fix C19-D32; errors of
+other topics hide nothing); otherwise the first
 such error is returned. -/
 theorem readPartitions_error_scope (connTopic : String) (res : MResponse) :
     (res.topics.all (fun t => !concerns connTopic t) = true →
       ∃ ps, readPartitions connTopic res = .ok ps ∧
-        ps.map (fun p => (p.topic, p.id)) = res.topics.flatMap (fun t => t.partitions.map fun p => (t.name, p.index))) ∧
+        ps.map (fun p => (p.topic, p.id, p.error)) = res.topics.flatMap (fun t => t.partitions.map fun p => (t.name, p.index, p.error))) ∧
     (∀ pre t post, res.topics = pre ++ t :: post → pre.all (fun t => !concerns connTopic t) = true →
       concerns connTopic t = true → readPartitions connTopic res = .error t.error) := by
   constructor
